@@ -66,6 +66,8 @@ def run(ctx):
             v = classify(ev, i, mon)
             if mon == "C06RoundTripFunded":
                 v["class"] = "beyond_funded"
+            dr = getattr(ctx, "m1_drift_idx", {}).get(getattr(ctx, "m1_last_trace", None), set())
+            v["conforms"] = not (i in dr or (i - 1) in dr)      # the withdrawal and its deposit
             ctx.report(v, {"driver": driver, "events": ev[lo:i + 1]})
 
     for cfg in (["MC_Market_lp", "MC_Market_fix"] if q else ["MC_Market_lp_thorough", "MC_Market_fixlp_thorough"]):
